@@ -823,7 +823,7 @@ def gen_handshake(real, rng, cid, script=None):
     t = BASE_T + rng.randint(0, 3000)
     script = script or rng.choice(["honest", "honest", "flip-client-hello", "flip-server-hello", "foreign-root", "resigned", "other-session",
                                     "wrong-token", "other-key-challenge", "dup-reorder", "tofu", "pinned-other", "trunc-ext", "early-app",
-                                    "no-answer"])
+                                    "no-answer", "stacked"])
 
     def emit(line):
         o = run.exec(line)
@@ -878,10 +878,37 @@ def gen_handshake(real, rng, cid, script=None):
             for dst, ty in (("s", 6), ("c", 6), ("s", 3), ("c", 5), ("s", 4)):
                 t += 1
                 emit("recv %s t=%d d=!%d,%d,0,0,%d,1:%s:none" % (dst, t, ty, rng.randint(1, 9), t // 1024, (b"\x00\x07" + b"evil").hex()))
+        if script == "stacked":
+            # one unauthenticated datagram typed CLIENT_HELLO that carries MORE than the hello: a hello (unsupported version, or the
+            # genuine one) followed by a challenge response / application message nobody authenticated
+            raw = run.eps["c"]["emits"][kc]
+            v = rng.choice(["v2+chal0", "v2+chal0", "hello+chal", "hello+app"])
+            if v == "v2+chal0":
+                h = C.HandshakeClientHelloMessage()
+                h.client_pubkey = real.crypto.EllipticCurvePrivateKey.new().getPublicKey()
+                h.client_version = 2
+                p1 = h.dumpb()
+            else:
+                p1 = raw[22:-4]
+            chal = C.HandshakeClientChallengeResponseMessage()
+            chal.token = 0 if v == "v2+chal0" else rng.choice([0, 0x40000000, rng.getrandbits(31)])
+            p2, ty2 = (b"evil", 6) if v == "hello+app" else (chal.dumpb(), 3)
+            pt = struct.pack(">HHB", len(p1), 1, 1) + p1 + struct.pack(">HHB", len(p2), 2, ty2) + p2
+            t += 2
+            emit("recv s t=%d d=!1,1,0,0,%d,2:%s:none" % (t, t // 1024, pt.hex()))
+            emit("dump s")
         deliver("s", "c", kc)
         if script == "dup-reorder":
             deliver("s", "c", kc)
         ks = built("s")
+        if script == "stacked" and ks is not None:
+            # the genuine server hello followed by an unauthenticated application message, towards the client
+            raw = run.eps["s"]["emits"][ks]
+            p1 = raw[22:-4]
+            pt = struct.pack(">HHB", len(p1), 1, 2) + p1 + struct.pack(">HHB", 4, 2, 6) + b"evil"
+            t += 2
+            emit("recv c t=%d d=!2,1,0,0,%d,2:%s:none" % (t, t // 1024, pt.hex()))
+            emit("dump c")
         if script in ("other-session", "foreign-root"):
             t += 5
             emit("hello c2 t=%d" % t)
